@@ -205,7 +205,11 @@ pub fn grid(seed: u64, tier: Tier) -> Vec<(String, Logical)> {
             },
             dedup: false,
             aux_seed: rng.next_u64(),
-            opts: Default::default(),
+            // the checksum of its content-info block straddles a page boundary of the file
+            opts: LogicalOpts {
+                align_last_block_crc_to_page: true,
+                ..Default::default()
+            },
         };
         out.push(("many-contents-loose-none".to_string(), logical));
     }
